@@ -87,6 +87,23 @@ impl OwnedEntry {
     }
 }
 
+/// Makes sure that a directory is known and listed in its parent, up to the
+/// root: archives do not always have a member for each directory.
+fn register_dir(dirs: &mut HashMap<SharedString, Vec<OwnedEntry>>, id: &SharedString) {
+    if dirs.contains_key(id) {
+        return;
+    }
+    dirs.insert(id.clone(), Vec::new());
+
+    if let Some(parent_id) = DirEntry::Directory(id).parent_id() {
+        let parent_id = SharedString::from(parent_id);
+        register_dir(dirs, &parent_id);
+        if let Some(parent) = dirs.get_mut(&parent_id) {
+            parent.push(OwnedEntry::Dir(id.clone()));
+        }
+    }
+}
+
 /// Register a file of an archive in maps.
 fn register_file(
     file: ZipFile,
@@ -125,18 +142,15 @@ fn register_file(
         let id = id_builder.join();
 
         // Register the file in the maps.
-        let entry = if file.is_file() {
+        if file.is_file() {
             let ext = extension_of(path)?.into();
             let desc = FileDesc(id, ext);
             files.insert(desc.clone(), index);
-            OwnedEntry::File(desc)
+            register_dir(dirs, &parent_id);
+            dirs.get_mut(&parent_id)?.push(OwnedEntry::File(desc));
         } else {
-            if !dirs.contains_key(&id) {
-                dirs.insert(id.clone(), Vec::new());
-            }
-            OwnedEntry::Dir(id)
-        };
-        dirs.entry(parent_id).or_default().push(entry);
+            register_dir(dirs, &id);
+        }
 
         Some(())
     })()
